@@ -3,7 +3,7 @@ package main
 // C17 — alias substitution equals textual replacement at command position and terminates.
 //
 // Space: all alias tables with ≤ 2 (quick) / 3 entries over names {x, y, z}
-// and a 14-value menu × all symbol strings ≤ 3 (quick) / 4 over a 13-symbol
+// and a 16-value menu × all symbol strings ≤ 3 (quick) / 4 over a 13-symbol
 // alphabet.  Oracle: the grammar model performs the textual replacement on
 // the symbol string (command position, recursion guard, trailing-blank rule);
 // the unfolded text is parsed by the real parser with no aliases; the two
@@ -19,7 +19,7 @@ import (
 	"github.com/hattya/go.sh/interp"
 )
 
-var c17Values = []string{"a", "a b", "a ", "y", "y ", "x", "x ", "a ;", "a |", "if", "b=1", "b=1 ", "> f", "'x'"}
+var c17Values = []string{"a", "a b", "a ", "y", "y ", "x", "x ", "a ;", "a |", "if", "b=1", "b=1 ", "> f", "'x'", "a  ", "y \t"}
 var c17Sigma = []string{"x", "y", "a", "'x'", "x=1", ";", "|", "if", "then", "fi", "(", ")", ">"}
 
 type c17Case struct {
@@ -230,7 +230,7 @@ func init() {
 	register(&check{
 		id:    "C17",
 		level: "model_checking",
-		rule: "every alias table with ≤ 2 entries (thorough: ≤ 3) over names {x y z} and the 14-value menu {a, 'a b', 'a ', y, 'y ', x, 'x ', 'a ;', 'a |', if, b=1, 'b=1 ', '> f', 'x'} plus 8 fixed three-entry chain/cycle tables × every symbol string ≤ 3 (thorough: ≤ 4 for the tables of ≤ 2 entries) over {x y a 'x' x=1 ; | if then fi ( ) >}; " +
+		rule: "every alias table with ≤ 2 entries (thorough: ≤ 3) over names {x y z} and the 16-value menu {a, 'a b', 'a ', y, 'y ', x, 'x ', 'a ;', 'a |', if, b=1, 'b=1 ', '> f', 'x', 'a  ' (two blanks), 'y <blank><tab>'} plus 8 fixed three-entry chain/cycle tables × every symbol string ≤ 3 (thorough: ≤ 4 for the tables of ≤ 2 entries) over {x y a 'x' x=1 ; | if then fi ( ) >}; " +
 			"non-trivial = the reference replacement changes the text",
 		assume: []string{"the reference replacement (c17.go unfold) uses the grammar model to find command-name positions; the unfolded text is parsed by the real parser without aliases, so only the substitution itself is modelled",
 			"alias values containing newlines are exercised for termination only (C01)"},
